@@ -56,6 +56,24 @@ func c07Diff(l, r map[string]any, reps int) Case {
 		}
 	}
 	L, R := anyToContainer(l), anyToContainer(r)
+	// operands built along other routes (decoder: shared nil leaf; clone: fresh nil leaves; sealed view)
+	// are the same documents: same answer
+	if pn := guard(func() {
+		for route := 1; route <= 3; route++ {
+			l2, ok1 := nodeVia(l, route).(dom.Container)
+			r2, ok2 := nodeVia(r, (route+1)%4).(dom.Container)
+			if !ok1 || !ok2 {
+				continue
+			}
+			ms := *diff.Diff(l2, r2)
+			if !reflect.DeepEqual(ms, first) && !(len(ms) == 0 && len(first) == 0) {
+				fail = append(fail, fmt.Sprintf("Diff of the same two documents built along routes %d/%d returned a different sequence", route, (route+1)%4))
+				break
+			}
+		}
+	}); pn != "" {
+		fail = append(fail, "panic in Diff of decoded/cloned/sealed operands: "+pn)
+	}
 	// the SAME two objects diffed several times: same answer every time, and neither is touched
 	if pn := guard(func() {
 		dl, dr := dom.VerifDump(L), dom.VerifDump(R)
